@@ -136,7 +136,24 @@ def variants(a):
     return res
 
 
+def _one(fn):
+    try:
+        r = fn()
+        return {"k": "ok", "ret": r is True, "rett": type(r).__name__}
+    except Exception as e:  # noqa: BLE001
+        return {"k": "exc", "cls": type(e).__name__, "lib": isinstance(e, exc_mod.SchwiftyException)}
+
+
+def consistency(a):
+    cls = IBAN if a["kind"] == "iban" else BIC
+    t = T(a["t"])
+    return {"new": _one(lambda: bool(cls(t)) or True),
+            "validate": _one(lambda: cls(t, allow_invalid=True).validate()),
+            "isvalid": _one(lambda: cls(t, allow_invalid=True).is_valid)}
+
+
 HANDLERS = {
+    "consistency": consistency,
     "iban.new": iban_new,
     "iban.validate": iban_validate,
     "iban.is_valid": iban_is_valid,
